@@ -1,6 +1,16 @@
-(* C08 — property theorems only (each closed by [exact]) + Print Assumptions. *)
+(* C08 — property theorems only (each closed by [exact]) + Print Assumptions.
+
+   Vocabulary (coq/Cursor): [call] = Next | Advance t; [run_spec L prog] = the reference cursor over
+   the strictly ascending list L (next = head/tail, advance t = drop-while (< t) then head/tail);
+   [stree] = a tree of searchers (leaves = posting-list cursors, Conj, DisjS / DisjH with min,
+   Bool guard must should must-not, Filter child filter); [build t] = the machine transcribed from
+   /repo/search/searcher for that tree; [denote t] = its set expression; [run fuel s prog] = the
+   machine's results (None = out of fuel); [wf t] = leaves ascending and every Bool node built by
+   the guarded BooleanSearcher.Advance (T1 obligation ob_boolean_should_guard). *)
 From Coq Require Import ZArith List.
-From Verif Require Import Cursor.Cursor.
+From Verif Require Import Cursor.Cursor Cursor.Machines Cursor.MachProofsBase
+  Cursor.MachProofsKids Cursor.MachProofsConj Cursor.MachProofsDisj Cursor.MachProofsHeap
+  Cursor.MachProofsBool Cursor.MachProofsFilter Cursor.MachProofsTree Cursor.MachProofsProps.
 Import ListNotations.
 Local Open Scope Z_scope.
 
@@ -17,3 +27,162 @@ Theorem C08_check_cursor_trace_facts : forall prog rs,
   (forall i j, nth_error rs i = Some None -> (i <= j)%nat -> (j < length rs)%nat -> nth_error rs j = Some None).
 Proof. exact check_cursor_trace_facts. Qed.
 Print Assumptions C08_check_cursor_trace_facts.
+
+(* ---------- one lemma per combinator: children are cursors => the combinator is a cursor ---------- *)
+Theorem C08_filter_cursor : forall C cnext cadv R,
+  asc_ok C R -> next_ok C cnext R -> adv_ok C cadv R ->
+  cursor_ok (filt_st C) (fun f => filt_next C (cnext f) (cadv f) f)
+            (fun f => filt_adv C (cnext f) (cadv f) f) (RFilt C R).
+Proof. exact filter_cursor. Qed.
+Print Assumptions C08_filter_cursor.
+
+Theorem C08_conj_cursor : forall C cnext cadv R,
+  asc_ok C R -> next_ok C cnext R -> adv_ok C cadv R ->
+  cursor_ok (conj_st C) (fun f => conj_next C (cnext f) (cadv f) f)
+            (fun f => conj_adv C (cnext f) (cadv f) f) (RConj C R).
+Proof. exact conj_cursor. Qed.
+Print Assumptions C08_conj_cursor.
+
+Theorem C08_disj_slice_cursor : forall C cnext cadv R,
+  asc_ok C R -> next_ok C cnext R -> adv_ok C cadv R ->
+  cursor_ok (dslice_st C) (fun f => dslice_next C (cnext f) f)
+            (fun f => dslice_adv C (cnext f) (cadv f) f) (RDisjS C R).
+Proof. exact disj_slice_cursor. Qed.
+Print Assumptions C08_disj_slice_cursor.
+
+Theorem C08_disj_heap_cursor : forall C cnext cadv R,
+  asc_ok C R -> next_ok C cnext R -> adv_ok C cadv R ->
+  cursor_ok (dheap_st C) (fun f => dheap_next C (cnext f) f)
+            (fun f => dheap_adv C (cnext f) (cadv f) f) (RDisjH C R).
+Proof. exact disj_heap_cursor. Qed.
+Print Assumptions C08_disj_heap_cursor.
+
+Theorem C08_boolean_cursor : forall C cnext cadv cmin R,
+  asc_ok C R -> next_ok C cnext R -> adv_ok C cadv R ->
+  (forall f k r k', cnext f k = Some (r, k') -> cmin k' = cmin k) ->
+  (forall f k t r k', cadv f k t = Some (r, k') -> cmin k' = cmin k) ->
+  cursor_ok (bool_st C) (fun f => bool_next C (cnext f) (cadv f) cmin f)
+            (fun f => bool_adv C (cnext f) (cadv f) cmin f) (RBool C cmin R).
+Proof. exact boolean_cursor. Qed.
+Print Assumptions C08_boolean_cursor.
+
+(* without the should-cursor guard in BooleanSearcher.Advance the machine loses a match *)
+Theorem C08_boolean_cursor_refuted :
+  let t := refuting_tree false in
+  denote t = [3] /\
+  forward (denote t) [Advance 1] = true /\
+  run (default_fuel t) (build t) [Advance 1] = Some [None] /\
+  run_spec (denote t) [Advance 1] = [Some 3] /\
+  run (default_fuel t) (build t) [Next; Next] = Some [Some 3; None] /\
+  run (default_fuel t) (build (refuting_tree true)) [Advance 1] = Some [Some 3].
+Proof. exact boolean_cursor_refuted. Qed.
+Print Assumptions C08_boolean_cursor_refuted.
+
+Theorem C08_program_subsequence_unguarded_refuted :
+  exists t prog, forward (denote t) prog = true /\
+    forall fuel, run fuel (build t) prog <> Some (run_spec (denote t) prog).
+Proof. exact program_subsequence_unguarded_refuted. Qed.
+Print Assumptions C08_program_subsequence_unguarded_refuted.
+
+(* ---------- the tree theorem ---------- *)
+Theorem C08_program_subsequence : forall t, wf t -> forall prog,
+  exists N, forall fuel, (N <= fuel)%nat ->
+    run fuel (build t) prog = Some (run_spec (denote t) prog).
+Proof. exact program_subsequence. Qed.
+Print Assumptions C08_program_subsequence.
+
+Theorem C08_program_subsequence_facts : forall t, wf t -> forall prog,
+  exists N, forall fuel, (N <= fuel)%nat ->
+    exists rs, run fuel (build t) prog = Some rs /\
+      rs = run_spec (denote t) prog /\
+      ascending (somes rs) /\
+      subseq (somes rs) (denote t) /\
+      check_cursor_trace prog rs = true.
+Proof. exact program_subsequence_facts. Qed.
+Print Assumptions C08_program_subsequence_facts.
+
+Theorem C08_next_only_enumeration : forall t, wf t ->
+  exists N, forall fuel, (N <= fuel)%nat ->
+    run fuel (build t) (repeat Next (length (denote t)) ++ [Next]) = Some (map Some (denote t) ++ [None]).
+Proof. exact next_only_enumeration. Qed.
+Print Assumptions C08_next_only_enumeration.
+
+Theorem C08_pending_after_In : forall L prog x, ascending L ->
+  (In x (pending_after L prog) <->
+   In x L /\ Forall (fun r => r < x) (somes (run_spec L prog)) /\
+   Forall (fun c => match c with Advance t => t <= x | Next => True end) prog).
+Proof. exact pending_after_In. Qed.
+Print Assumptions C08_pending_after_In.
+
+Theorem C08_advance_least : forall t, wf t -> forall prog1 tgt prog2,
+  exists N, forall fuel, (N <= fuel)%nat ->
+    exists rs1 r rs2,
+      run fuel (build t) (prog1 ++ Advance tgt :: prog2) = Some (rs1 ++ r :: rs2) /\
+      length rs1 = length prog1 /\
+      let p := pending_after (denote t) prog1 in
+      match r with
+      | Some x => In x p /\ tgt <= x /\ forall y, In y p -> tgt <= y -> x <= y
+      | None => forall y, In y p -> y < tgt
+      end.
+Proof. exact advance_least. Qed.
+Print Assumptions C08_advance_least.
+
+Theorem C08_exhausted_stays_exhausted : forall t, wf t -> forall prog1 c prog2,
+  fst (spec_step (pending_after (denote t) prog1) c) = None ->
+  exists N, forall fuel, (N <= fuel)%nat ->
+    run fuel (build t) (prog1 ++ c :: prog2) =
+    Some (run_spec (denote t) prog1 ++ None :: map (fun _ => None) prog2).
+Proof. exact exhausted_stays_exhausted. Qed.
+Print Assumptions C08_exhausted_stays_exhausted.
+
+Theorem C08_advance_first_call : forall t, wf t -> forall tgt prog,
+  exists N, forall fuel, (N <= fuel)%nat ->
+    match run fuel (build t) (Advance tgt :: prog) with
+    | Some (Some x :: _) => In x (denote t) /\ tgt <= x /\ forall y, In y (denote t) -> tgt <= y -> x <= y
+    | Some (None :: _) => forall y, In y (denote t) -> y < tgt
+    | _ => False
+    end.
+Proof. exact advance_first_call. Qed.
+Print Assumptions C08_advance_first_call.
+
+Theorem C08_advance_past_end : forall t, wf t -> forall tgt prog,
+  (forall y, In y (denote t) -> y < tgt) ->
+  exists N, forall fuel, (N <= fuel)%nat ->
+    run fuel (build t) (Advance tgt :: prog) = Some (None :: map (fun _ => None) prog).
+Proof. exact advance_past_end. Qed.
+Print Assumptions C08_advance_past_end.
+
+(* ---------- scorch readers and the unadorned replacements (Cursor/MachProofsTfr.v) ---------- *)
+From Verif Require Import Cursor.MachProofsTfr.
+
+Theorem C08_docid_cursor : forall segs offs prog, length offs = length segs ->
+  did_run (did_init segs offs) prog = Some (run_spec (tfr_global segs offs) prog).
+Proof. exact docid_cursor. Qed.
+Print Assumptions C08_docid_cursor.
+
+Theorem C08_hit1_cursor : forall st t,
+  hit1_at_or_after st t =
+  (fst (spec_advance t (hit1_pending st)),
+   match snd (spec_advance t (hit1_pending st)) with [] => None | d :: _ => Some d end).
+Proof. exact hit1_cursor. Qed.
+Print Assumptions C08_hit1_cursor.
+
+Theorem C08_unadorned_conj_eq : forall its x, its <> [] ->
+  (In x (una_elems (una_and its)) <-> Forall (fun it => In x (it_elems it)) its).
+Proof. exact unadorned_conj_eq. Qed.
+Print Assumptions C08_unadorned_conj_eq.
+
+Theorem C08_unadorned_disj_eq : forall its x,
+  In x (una_elems (una_or its)) <-> Exists (fun it => In x (it_elems it)) its.
+Proof. exact unadorned_disj_eq. Qed.
+Print Assumptions C08_unadorned_disj_eq.
+
+Theorem C08_unadorned_conj_list : forall its, its <> [] -> Forall (fun it => ascending (it_elems it)) its ->
+  una_elems (una_and its) = inter_all (map it_elems its).
+Proof. exact unadorned_conj_list. Qed.
+Print Assumptions C08_unadorned_conj_list.
+
+Theorem C08_unadorned_disj_list : forall its, Forall (fun it => ascending (it_elems it)) its ->
+  una_elems (una_or its) = at_least 1 (map it_elems its).
+Proof. exact unadorned_disj_list. Qed.
+Print Assumptions C08_unadorned_disj_list.
